@@ -8,10 +8,10 @@ import c06_corr
 PROP_MODULE = "NeverModel.Props.C06"
 REQUIRED = ["Never.C06.context_error_propagates", "Never.C06.context_never_accepts",
             "Never.C06.rejects_assign_let_or_param", "Never.C06.rejects_call_arity",
-            "Never.C06.rejects_call_kind_partial", "Never.C06.rejects_call_kind_counterexample",
+            "Never.C06.rejects_call_kind",
             "Never.C06.rejects_undefined_name", "Never.C06.rejects_undefined_attribute",
             "Never.C06.rejects_operator_incompatible", "Never.C06.rejects_nonbool_condition",
-            "Never.C06.rejects_result_kind_partial", "Never.C06.rejects_match_missing_partial",
+            "Never.C06.rejects_result_kind", "Never.C06.rejects_match_missing_partial",
             "Never.C06.rejects_match_missing_counterexample", "Never.C06.rejects_unknown_exception",
             "Never.C06.check_sound_partial"]
 
@@ -45,8 +45,9 @@ def check(tier, seed):
         samples=samples, c06=st, proof_s=round(t1 - t0, 1))
     rep.assumptions = [
         "the theorems are about the model of the CORE language (Model/Check.lean header lists what is outside)",
-        "rejects_call_kind / rejects_result_kind are _partial (first-order parameter types) and rejects_match_missing is _partial "
-        "(non-empty guard list): the two excluded points are genuine defects of the pinned tree, replayed from corpus/tc",
+        "rejects_match_missing is _partial (non-empty guard list): the excluded point `match e { }` is a genuine defect of the "
+        "tree, replayed from corpus/tc (known finding); rejects_call_kind / rejects_result_kind are full strength since the "
+        "repair of param_cmp (186dfd9)",
         "reachability hypothesis P.holeEnv = ok: nothing visited BEFORE the offending node is itself in error (single fault)",
         "later compiler passes (constant reduction, emitter) are not modelled; generated programs avoid their known failures"]
     return rep.finish()
